@@ -239,12 +239,13 @@ def p3_case(ch: explore.Chooser, seed: int):
     count = ch.pick(P3_COUNTS, "count")
     chunk = ch.pick(P3_CHUNKS, "chunk")
     via = ch.pick(P3_VIA, "via")
+    mode = ch.pick(["w", "x"], "open-mode")  # 'x' takes effect for targets given by name
     members = []
     for k in range(count):
         cls = ch.pick(archives.NAME_CLASSES, f"name[{k}]")
         size = ch.pick(P3_SIZES, f"size[{k}]")
         members.append(("@" + cls, "random" if k % 2 == 0 else "repetitive", size))
-    return archives.default_case(chain=chain, header=header, target=target, chunk=chunk, via=via, members=members, seed=seed)
+    return archives.default_case(chain=chain, header=header, target=target, chunk=chunk, via=via, members=members, seed=seed, mode=mode)
 
 
 # ---------------------------------------------------------------------------------------------
@@ -359,7 +360,7 @@ def main(tier="quick", seed=0, only=None):
             "P1: every chain (quick: one per decoder family +-AES; thorough: all 114 constructible chains) x single member of every size in "
             "S(64) x textures, and 25 two-member solid lists, with the I/O block rebound to 64 and 61 bytes and the extraction chunk to 7; "
             "P2: chains x sizes around 32 KiB and 1 MiB at the real constants; P3: choice-tree exploration of (chain, header mode, target "
-            f"kind incl. multi-volume 64/100/4096, member count 0..3, name class, size, chunk limit, writestr/writef) with <= {bound} "
+            f"kind incl. multi-volume 64/100/4096, member count 0..3, name class, size, chunk limit, writestr/writef, open mode w / x) with <= {bound} "
             "deviations from (LZMA2, encoded, BytesIO, one ASCII member); P4: every documented parameter value; P6: multi-volume targets as a full product volume size {64,72,100,150,512 (thorough: 10 sizes)} x header raw/encoded/encrypted x 0/1/3 members x chain, so that header and packed streams straddle 1, 2, 3+ volume files; P5: solid folders of 4..5 members over the full product of sizes {1,10,64,74,130} around a 64-byte block, with and without a 7-byte extraction chunk. Each case is written by "
             "py7zr, reopened, and compared by getnames, extractall(factory) and extractall(path). Distinct by case digest; non-trivial = "
             "at least one non-empty member reached the byte comparison."
